@@ -496,4 +496,12 @@ example : staticLen (.tuple [.bool, .bool, .uint 16, .sarray .bool 9, .address])
 example (x : Bytes) (hx : x.length = 65532) : heads 4 [.dyn x, .dyn []] = none := by
   simp [heads, lim16, hx]
 
+/-- **the ARC-4 encoding is injective on each type**: two values of a type with the same encoding
+    are the same value (corollary of `decode_encode`) -/
+theorem encode_injective (t : Ty) (v w : V) (bs : Bytes) (hv : encode t v = some bs)
+    (hw : encode t w = some bs) : v = w := by
+  have h1 := decode_encode t v bs hv
+  rw [decode_encode t w bs hw] at h1
+  exact (Option.some.inj h1).symm
+
 end PyTealV.Arc4
